@@ -65,6 +65,38 @@ def classify(m: Mutation, entry: FuncInfo) -> Optional[str]:
   return None
 
 
+def hidden_state(check: Check, mods, rule: str = 'R-PURE.state', only_kinds=('captured', 'global', 'param')) -> int:
+  """The purity rule of C10 for the round entries defined in `mods`, reporting violations only (used by the properties that own
+  those modules: a counter that accumulates across rounds, a cache at module level, a state list updated in place)."""
+  repo = check.repo
+  pa = PurityAnalysis(repo)
+  algs = entries.find_algorithms(repo, mods)
+  aggs = entries.find_aggregators(repo, mods)
+  triples = entries.find_triples(repo, mods)
+  entry_nodes: Set[int] = set()
+  for a in algs + aggs:
+    entry_nodes.add(id(a.apply.node))
+    if a.init is not None:
+      entry_nodes.add(id(a.init.node))
+  for t in triples:
+    for f in t.functions():
+      entry_nodes.add(id(f.node))
+  n = bad = 0
+  for m in mods:
+    for fi in m.functions():
+      n += 1
+      entry = entry_of(fi, entry_nodes)
+      for mu in pa.mutations(fi):
+        why = classify(mu, entry)
+        if why is not None:
+          bad += 1
+          check.ob(rule, fi, mu.construct, False, f'{mu.how}: {why}', node=mu.node, exact=True)
+  if not bad:
+    check.ob(rule, (mods[0].relpath if mods else 'fedjax', '<functions>'), f'{n} functions', True,
+             'no write reaches a parameter, a module-level object or a captured variable that outlives one invocation', nontrivial=False)
+  return n
+
+
 NON_STATE_VALUES = {'types.MappingProxyType', 'builtins.iter', 'builtins.map', 'builtins.filter', 'builtins.zip', 'builtins.open',
                     'builtins.enumerate', 'builtins.reversed'}
 
@@ -196,6 +228,32 @@ def run(check: Check):
             check.ob('R-STATE.plain', fi, txt(c)[:80], False,
                      f'a state field receives {bad}(...): such an object cannot be pickled / is not a pytree of arrays, so the state can no '
                      'longer be checkpointed and restored', node=a)
+  # a state field that holds a numpy array is updated in place by `x = state.f; x += d`: every earlier state shares the new value
+  from fjsa.flow import bound_args
+  NP_MAKERS = ('numpy.zeros', 'numpy.ones', 'numpy.array', 'numpy.asarray', 'numpy.empty', 'numpy.full', 'numpy.zeros_like', 'numpy.ones_like')
+  for m in algo_mods + agg_mods:
+    np_fields = set()
+    aug_sites = []
+    for fi in m.functions():
+      ff = FuncFlow.of(repo, fi)
+      for _, c in ff.calls():
+        r = ff.callee(c)
+        if r.kind == 'class' and r.cls in state_classes:
+          for fld, a in (bound_args(ff, c) or {}).items():
+            if any(isinstance(v, ast.Call) and (ff.ext(v.func) or '') in NP_MAKERS for v in ff.expand(a)):
+              np_fields.add(fld)
+      for nd in ff.cfg.nodes:
+        a = nd.ast
+        if nd.kind == 'stmt' and isinstance(a, ast.AugAssign) and isinstance(a.target, ast.Name) and not getattr(a, '_fjsa_rebind', False):
+          for d in ff.rd.reaching(nd, a.target.id):
+            v = d.value
+            if d.kind == 'assign' and isinstance(v, ast.Attribute) and ff.param_of(v.value) is not None:
+              aug_sites.append((fi, a, v.attr))
+    for fi, a, fld in aug_sites:
+      if fld in np_fields:
+        check.ob('R-STATE.inplace', fi, txt(a)[:80], False,
+                 f'`{txt(a.target)}` is the caller\'s state.{fld}, which this module initialises with a numpy array: the augmented assignment '
+                 'updates that array in place, so the input state (and every earlier state) changes with it', node=a, exact=True)
   check.ob('R-STATE.plain', (algo_mods[0].relpath.rsplit('/', 1)[0] + '/*', '<state constructors>'), f'{n_ctor} state constructor calls', True,
            'state fields are plain containers / arrays', nontrivial=False)
   check.floor('R-STATE.plain', 'state constructor calls', n_ctor, 10)
@@ -228,6 +286,19 @@ def run(check: Check):
           check.ob('R-DONATE', fi or m, txt(node), False,
                    'module-private donating wrapper used outside fedjax/core/tree_util.py: its first argument is '
                    'invalidated', node=node, advisory=m.name.split('.')[0] != 'fedjax')
+  # who may donate: only the private wrappers of tree_util (their callers own the first operand) and the per-client steps of
+  # for_each_client (the client state they donate is created by the backend). A donation declared anywhere else in the library
+  # invalidates buffers that belong to the caller of a public function (an optimizer state, the clients' updates ...).
+  DONORS = ('fedjax/core/tree_util.py', 'fedjax/core/for_each_client.py')
+  n_decl = 0
+  for dm, node, t, nums in da.declared():
+    if not dm.relpath.startswith('fedjax/'):
+      continue
+    n_decl += 1
+    if dm.relpath not in DONORS:
+      check.ob('R-DONATE.scope', dm.enclosing_func(node) or dm, f'donate_argnums={t}', False,
+               'donation declared outside tree_util.py / for_each_client.py: the arguments of this function are the caller\'s (a server '
+               'or optimizer state, client updates) and are deleted by the call', node=node, exact=True)
   check.ob('R-DONATE', tu, f'private donors {sorted(private_donors)}', True,
            f'referenced only inside tree_util.py; donation sites in algorithms/aggregators: {n_sites}', nontrivial=True)
   # -- compression state carries a fresh key
